@@ -285,6 +285,9 @@ def make_case(rng):
     return {"kind": "nonlinear-sim", "family": family, "method": method, "spec": spec, "steady": steady, "meta": meta, "source": rr["source"],
             "T": T, "unant": unant, "ant": ant, "opts": opts, "init": init, "terminal_data_from_first_order": bool(rng.random() < 0.5),
             "hist": int(rng.integers(0, 2 ** 31)) if rng.random() < 0.3 else None,
+            # the input databox carries parameter entries of ANOTHER calibration (a databox made before the model was
+            # re-calibrated); with the default parameters_from_data=False they must be ignored
+            "stale_params": (T + len(unant) + len(ant)) % 3 == 0,
             # a path for every exogenous variable (pre-sample period, span and the periods after it)
             "exog_paths": {q["name"]: [float(np.round(rng.normal(0, 0.05), 5)) for _ in range(T + 4)] for q in spec["exog"]},
             "unant2": ([[shocks[int(rng.integers(0, len(shocks)))], int(rng.integers(0, T)), float(np.round(rng.normal(0, scale) * rng.uniform(0.1, 3), 5))]
@@ -357,6 +360,11 @@ def run_case(c, case):
         for name, vals in (case.get("exog_paths") or {}).items():
             for k_, v_ in enumerate(vals):
                 db[name][start - 1 + k_] = v_
+        if case.get("stale_params"):
+            for q in spec["params"]:
+                if isinstance(db.get(q["name"]), (int, float)):
+                    db[q["name"]] = float(db[q["name"]]) * 0.6 + 0.07
+            c.note("input:stale-parameter-entries-in-databox")
         opts = dict(case["opts"])
         ss = dict(opts.get("solver_settings") or {})
         if ss.get("step_tolerance") == "inf":
